@@ -272,6 +272,18 @@ fn ensure_inner_pool<'a, T: 'static>(
         .or_insert_with(|| RawOpaquePool::with_layout(layout))
 }
 
+#[cfg(folo_verif)]
+impl LocalBlindPool {
+    /// Verification hook: read-only internal consistency probe.
+    #[doc(hidden)]
+    pub fn __verif_check(&self) -> Result<(), String> {
+        self.core
+            .borrow()
+            .values()
+            .try_for_each(RawOpaquePool::__verif_check)
+    }
+}
+
 #[cfg(test)]
 #[cfg_attr(coverage_nightly, coverage(off))]
 mod tests {
